@@ -62,8 +62,8 @@ type Doc struct {
 	// registrations: "unparsable" = an address no builder client can be made from (url.Parse rejects it, so
 	// util.FetchBuilderClient fails every time it is asked), "nosubmit" = a relay whose builder client is not a
 	// ValidatorRegistrationsSubmitter.  The code logs the error for that relay and carries on with the others:
-	// nothing the model predicts depends on it (the document is d_relay = true either way).  Ignored without Relay
-	// and by version 1 documents.
+	// nothing the model predicts depends on it (the document is d_relay = true either way).  Ignored without Relay.
+	// A version 1 document lists it in the relays of its default and proposer entries.
 	Extra string `json:"extra,omitempty"`
 }
 
@@ -123,7 +123,7 @@ const unparsableRelayAddress = "://unusable-relay.c12.example"
 const noSubmitRelayAddress = "https://nosubmit-relay.c12.example"
 
 func extraRelayAddress(d *Doc) string {
-	if d == nil || !d.Relay || d.V1 {
+	if d == nil || !d.Relay {
 		return ""
 	}
 	switch d.Extra {
@@ -348,8 +348,12 @@ const baseMarker = uint64(1) << 40
 func docJSON(d *Doc) []byte {
 	var b strings.Builder
 	if d.V1 {
-		entry := fmt.Sprintf(`{"fee_recipient":"%s","gas_limit":"30000000","builder":{"enabled":%v,"relays":["%s"]}}`,
-			docFee(d.ID), d.Relay, relayAddress)
+		relays := `"` + relayAddress + `"`
+		if extra := extraRelayAddress(d); extra != "" {
+			relays = `"` + extra + `",` + relays
+		}
+		entry := fmt.Sprintf(`{"fee_recipient":"%s","gas_limit":"30000000","builder":{"enabled":%v,"relays":[%s]}}`,
+			docFee(d.ID), d.Relay, relays)
 		fmt.Fprintf(&b, `{"default_config":%s,"proposer_config":{`, entry)
 		for v := uint64(1); v <= nValidators; v++ {
 			pk := pubkeyOf(v)
@@ -1124,7 +1128,7 @@ func gen(r *Rand, search bool) Scenario {
 			d := g.doc()
 			d.Entries = true
 			if v1 {
-				d = &Doc{ID: d.ID, Relay: d.Relay, V1: true}
+				d = &Doc{ID: d.ID, Relay: d.Relay, V1: true, Extra: d.Extra}
 			}
 			g.add(Cmd{Op: "refresh", Fetch: "ok", Doc: d})
 			if queued {
